@@ -6,29 +6,41 @@
 static unsigned char g_snap[1 << 16]; static size_t g_snap_n; static uintptr_t g_snap_p;
 static void cap(const unsigned char* p, size_t n) { g_snap_n = n < sizeof g_snap ? n : sizeof g_snap; memcpy(g_snap, p, g_snap_n); }
 /* capture hook used only by `wipe`: the generic interposer scans; here we need the bytes */
-static void wipe_op(size_t size)
+static unsigned char g_snap2[1 << 16];
+static int wipe_once(size_t size, unsigned char fillv, size_t* pn)
 {
-	blob_t b; size_t i, n; unsigned char* raw; int fill = 0, hdr;
+	blob_t b; size_t n; unsigned char* raw;
 	b = blobCreate(size);
-	if (!b) { printf("null"); return; }
-	memset(b, 0x5A, size);
+	if (!b) return 0;
+	memset(b, fillv, size);
 	raw = (unsigned char*)b - sizeof(size_t);
 #ifdef BEE2_VERIF
 	n = size + sizeof(size_t);
 #else
 	n = (size + sizeof(size_t) + 1023) / 1024 * 1024;
 #endif
-	/* take the snapshot from inside free(): register the block, let the interposer copy it */
+	/* the snapshot is taken from inside free(): register the block, the interposer copies it */
 	g_capture = cap; g_snap_n = 0; g_snap_p = (uintptr_t)raw;
 	g_on = 1; blk_clear(); blk_add(raw, n);
 	blobClose(b);
 	g_on = 0; g_capture = 0;
-	if (g_snap_n != n) { printf("not-released"); return; }
+	*pn = n;
+	return g_snap_n == n;
+}
+static void wipe_op(size_t size)
+{
+	size_t i, n = 0, stale = 0, first = 0; int fill = 0, hdr;
+	if (!wipe_once(size, 0xA5, &n)) { printf("not-released"); return; }
+	memcpy(g_snap2, g_snap, n < sizeof g_snap2 ? n : sizeof g_snap2);
+	if (!wipe_once(size, 0x5A, &n)) { printf("not-released"); return; }
 	hdr = 1;
 	for (i = 0; i < sizeof(size_t); ++i) if (((unsigned char*)&size)[i] != g_snap[i]) hdr = 0;
 	for (i = 0; i + 8 <= n; ++i) if (memcmp(g_snap + i, "\x5A\x5A\x5A\x5A\x5A\x5A\x5A\x5A", 8) == 0) fill = 1;
-	printf("len=%zu ptrmod=%u header_intact=%d fill_left=%d deltas=", n, (unsigned)(g_snap_p & 15), hdr, fill);
-	for (i = 0; i + 1 < n && i < 48; ++i) printf("%02x", (unsigned char)(g_snap[i + 1] - g_snap[i]));
+	/* an octet of the payload that shows the fill value of BOTH runs was not overwritten */
+	for (i = sizeof(size_t); i < sizeof(size_t) + size; ++i)
+		if (g_snap[i] == 0x5A && g_snap2[i] == 0xA5) { if (!stale) first = i; ++stale; }
+	printf("len=%zu ptrmod=%u header_intact=%d fill_left=%d stale=%zu@%zu deltas=", n, (unsigned)(g_snap_p & 15), hdr, fill, stale, first);
+	for (i = 0; i + 1 < n; ++i) printf("%02x", (unsigned char)(g_snap[i + 1] - g_snap[i]));
 }
 static void handle(int argc, char** argv)
 {
